@@ -57,7 +57,7 @@ fn param(s: &mut S, me: &str) -> String {
         7 => "n0".into(),
         8 => "n1,n1,n2".into(),
         9 => format!("{},n0,{}", me, me),
-        10 => ["nobody", "gone", "n4", "n4r", "2", "1"][s.pick(6)].into(),
+        10 => ["nobody", "gone", "n4", "n4r", "2", "1", "out"][s.pick(7)].into(),
         11 => "".into(),
         12 => long(1900, 'x'),
         13 => format!("#{}", long(1200, 'c')),
@@ -109,7 +109,7 @@ pub fn fuzz_line(s: &mut S, me: &str) -> (String, String) {
         let strings = [
             "+o-o+l-l+b", "+ov n1 n2", "+b *!*@*", "-b *!*@*", "+b", "+e", "+I", "+k k1", "-k", "+l 1", "-l",
             "+kl k1 2", "+lk 3 k2", "+imtns", "-imtns", "+q n1", "-q n0", "+a n2", "-a n2", "+h n3", "-h n3",
-            "+v n4 +v n3 -v n4", "+ooo n1 n1 n1", "+o nobody", "-o n0", "+bbb a b c", "+eI x y", "-beI a b c",
+            "+v n4 +v n3 -v n4", "+ooo n1 n1 n1", "+o nobody", "-o n0", "+v out", "+o out", "-h out", "+q out", "-v out", "+a out n1", "+bbb a b c", "+eI x y", "-beI a b c",
             "+i-i+i-i", "+oO", "-oO", "+iw", "-iw", "+r", "-r", "+lv 5 n1", "+kv k n1", "+b-b x!y@z x!y@z",
             "+o", "+l", "+k", "+l x", "+l -5", "+z", "-", "+", "+o-", "+b \u{e9}*?", "+I *?*",
         ];
@@ -249,6 +249,9 @@ fn build_scene(seeds: &[u16]) -> Scene {
     sc.send(b1, "OPER op0 operpw0");
     sc.send(b1, "JOIN &pre");
     sc.send(b1, "JOIN #c1");
+    // a registered user who is on no channel of the scene
+    let oc = sc.reg("out");
+    sc.bystanders.push((oc, "out".into()));
     let b4 = sc.bystanders[4].0;
     sc.send(b4, "AWAY :scene away");
     sc.send(b4, "MODE n4 +iw");
@@ -396,11 +399,25 @@ pub fn check(c: &FuzzCase, st: &mut Stats) -> Result<(), Viol> {
     st.count(&format!("role.{}", sc.role));
     let me = sc.me.clone();
     let f = sc.fuzzer;
+    let mut last_nick: Option<String> = None;
+    let mut rival_done = false;
     for (i, seedv) in c.lines.iter().enumerate() {
         if sc.w.conns[f].eof {
             break;
         }
         let mut s = S::new(seedv);
+        // an unregistered fuzzer that has claimed a nick sees a rival register that nick first
+        if sc.role == "unregistered" && !rival_done && last_nick.is_some() && s.pick(6) == 0 {
+            let n = last_nick.clone().unwrap();
+            let r = sc.w.connect();
+            sc.justified_eof.push(false);
+            sc.eof_known.push(false);
+            sc.send(r, &format!("NICK {}", n));
+            sc.send(r, "USER rival 0 * :Rival");
+            rival_done = true;
+            st.count("rival_registrations");
+            check_health(&mut sc, "rival registration", false)?;
+        }
         let raw_mode = s.pick(20) == 19;
         if raw_mode {
             // raw bytes: invalid UTF-8, NUL, bare CR, over-long line, odd chunking
@@ -428,8 +445,19 @@ pub fn check(c: &FuzzCase, st: &mut Stats) -> Result<(), Viol> {
             // invalid text and over-long lines may at worst close the sender cleanly
             check_health(&mut sc, &format!("RAW/{}", k), k == 0 || k == 3 || k == 4)?;
         } else {
-            let (line, desc) = fuzz_line(&mut s, &me);
+            let (mut line, desc) = fuzz_line(&mut s, &me);
             let verb = desc.split('/').next().unwrap_or("").to_string();
+            if sc.role == "unregistered" && verb == "NICK" && s.chance(60) {
+                // claim a fresh, valid nick so that the late nick-collision path can be reached
+                line = format!("NICK fz{}", i % 3);
+            }
+            if verb == "NICK" {
+                if let Some(n) = line.split(' ').nth(1) {
+                    if !n.is_empty() && !n.starts_with(':') && n.len() < 30 {
+                        last_nick = Some(n.to_string());
+                    }
+                }
+            }
             sc.send(f, &line);
             let reached_handler = sc.role != "unregistered";
             if reached_handler {
